@@ -14,6 +14,11 @@ use super::*;
 use crate::instructions::*;
 use crate::operand::*;
 
+mod oracle_imports {
+    pub use crate::assembler::*;
+    pub use crate::instructions::*;
+    pub use crate::operand::*;
+}
 #[path = "c16_oracle.rs"]
 mod oracle;
 use oracle::*;
